@@ -246,6 +246,13 @@ pub fn exec(op: &str, a: &[Vec<u8>]) -> Out {
                 dsv.push(need!(sc_any(s)));
             }
             let pre = Pre::new(&spv);
+            // a precomputation is a reusable object: a first use with other scalars (all ones, fewer of them)
+            // must not influence the measured call
+            {
+                let ones = vec![Scalar::ONE; ssv.len() / 2];
+                let _ = pre.vartime_multiscalar_mul(&ones);
+                let _ = pre.vartime_mixed_multiscalar_mul(&ones, &dsv, &dpv);
+            }
             let none = |i: usize| a[5].get(i / 8).map(|b| b >> (i % 8) & 1 == 1).unwrap_or(false);
             let r = match variant {
                 0 => {
